@@ -1,33 +1,6 @@
 import os, re, subprocess, time
 from ._common import STD_TRUST
 
-KF_ID = 'KF-C15-1'
-
-
-def _is_f16_site(acc):
-    """an access of a race report is the known site iff its source line is the options.Factory nil check / assignment
-    of a generated ToMesg"""
-    fn, base, line, path = acc
-    if '/profile/mesgdef/' not in path or not base.endswith('_gen.go'):
-        return False
-    try:
-        src = open(path).read().split('\n')[line - 1]
-    except Exception:  # noqa
-        return False
-    return 'options.Factory' in src
-
-
-def _classify(reports):
-    known, other = [], []
-    for r in reports:
-        accs = r['accesses']
-        if len(accs) >= 2 and all(_is_f16_site(a) for a in accs):
-            known.append(r)
-        else:
-            other.append(r)
-    return known, other
-
-
 def _race_exec(ctx, lines):
     """run operation lines on the race build; returns (answers, reports)"""
     import framework as F
@@ -38,90 +11,88 @@ def _race_exec(ctx, lines):
     return [l for l in p.stdout.split('\n') if l], _race.parse_reports(p.stderr)
 
 
+def _sites(rep):
+    return '; '.join(f'{a[0]} {a[1]}:{a[2]}' for a in rep['accesses']) or rep['text'][:300]
+
+
+def _reproducing_line(ctx, candidates, budget=12):
+    """an operation line that, run alone on the race build (6 repetitions), makes the detector report: the replay of a
+    report that came out of a whole family run. None if no candidate reproduces it (the report stays the evidence)."""
+    for l in candidates[:budget]:
+        _, reps = _race_exec(ctx, [l] * 6)
+        if reps:
+            return l
+    return None
+
+
 def _extra(ctx, spec):
-    """the `concurrent` family under the race detector (both tiers; sizes differ):
-    (a) mixes WITHOUT a shared nil-factory options object: no report at all may appear;
-    (b) mixes with it: every report must be the KF-C15-1 site (options.Factory in a generated ToMesg);
-    (c) the witness of KF-C15-1 alone: if the detector reports the site, the finding is still there."""
+    """the `concurrent` family under the race detector (both tiers; sizes differ). Since the repair of KF-C15-1 there
+    is no excused site: ANY data race report is a violation.
+    (a) the family (a quarter of the mixes share a nil-Factory options object, two fixed dense mixes of them come first):
+        answers must equal the model's, no report may appear;
+    (b) the corpus lines (witness of the repaired KF-C15-1 and its twin with the Factory set), 6 repetitions each: no report."""
     import framework as F
     from . import _race, _crash
     _crash.report_crashes(ctx)
     if any(f['kind'] == 'tool' for f in ctx.failures):
         return
-    n = '300' if ctx.tier == 'thorough' else '40'
-    tot = dict(ops=0, reports_without_shared_nil=0, reports_known_site=0, reports_other=0)
-    for label, env in (('noz', dict(VERIF_CONC_NOZ='1', VERIF_CONC_N=n)), ('z', dict(VERIF_CONC_N=n))):
-        r = _race.run_race(ctx, 'concurrent', tier=ctx.tier, extra_env=env)
-        if r is None:
-            return
-        ops, ans, reports, rc = r
-        ctx.timing['race_concurrent_' + label] = ctx.timing.get('race_concurrent', 0)
-        tot['ops'] += len(ops)
-        if not ops:
-            ctx.fail('tool', 'race build of the harness produced no operations for family concurrent')
-            return
-        model = F.run_driver(ops)
-        bad = [(o, a, b) for o, a, b in zip(ops, ans, model) if a != b]
-        if bad:
-            o, a, b = min(bad, key=lambda x: len(x[0]))
-            ctx.fail('prop', f'under -race ({label}): the result of an operation run concurrently differs from its solo run on {len(bad)} of {len(ops)} mixes',
-                     family='concurrent', op=o, impl=a, model=b, demanded=b)
-        known, other = _classify(reports)
-        listed = any(k.get('id') == KF_ID and k.get('status') == 'open' for k in F.load_known('C15'))
-        if not listed:      # nothing is excused unless the finding is listed
-            other, known = known + other, []
-        if label == 'noz':
-            tot['reports_without_shared_nil'] = len(reports)
-            other = reports   # nothing is excused here
-        else:
-            tot['reports_known_site'] += len(known)
-        tot['reports_other'] += len(other)
-        if other:
-            rep = other[0]
-            sites = '; '.join(f'{a[0]} {a[1]}:{a[2]}' for a in rep['accesses']) or rep['text'][:300]
-            # an operation line to replay: the first mix of this run whose class is the options sharing, if the report is that site
-            op = f'(family concurrent under -race, {label}, seed {ctx.seed})'
-            if len(rep['accesses']) >= 2 and all(_is_f16_site(a) for a in rep['accesses']):
-                cls = F.run_driver(ops, mode='--kf')
-                op = next((o for o, c in zip(ops, cls) if KF_ID in c.split(',')), op)
-            ctx.fail('prop', f'race detector: {len(other)} data race report(s) outside the listed site ({label} run): {sites}',
-                     family='concurrent', op=op, impl=rep['text'], demanded='no data race')
+    n = '600' if ctx.tier == 'thorough' else '80'
+    tot = dict(ops=0, mixes_sharing_nil_factory_options=0, reports=0, witness_runs=0, witness_reports=0)
+    r = _race.run_race(ctx, 'concurrent', tier=ctx.tier, extra_env=dict(VERIF_CONC_N=n))
+    if r is None:
+        return
+    ops, ans, reports, rc = r
+    tot['ops'] = len(ops)
+    tot['mixes_sharing_nil_factory_options'] = sum(1 for o in ops if sum(1 for t in o.split(' ') if t.startswith('file:') and t.endswith(':z')) >= 2)
+    if not ops:
+        ctx.fail('tool', 'race build of the harness produced no operations for family concurrent')
+        return
+    if not tot['mixes_sharing_nil_factory_options']:
+        ctx.fail('tool', 'family concurrent produced no mix in which two conversions share a nil-Factory options object')
+        return
+    model = F.run_driver(ops)
+    bad = [(o, a, b) for o, a, b in zip(ops, ans, model) if a != b]
+    if bad:
+        o, a, b = min(bad, key=lambda x: len(x[0]))
+        ctx.fail('prop', f'under -race: the answer of the implementation (concurrent = solo results, shared options only read) differs from the model on {len(bad)} of {len(ops)} mixes',
+                 family='concurrent', op=o, impl=a, model=b, demanded=b)
+    tot['reports'] = len(reports)
+    corpus = F.corpus_lines('concurrent')
+    if reports:
+        rep = reports[0]
+        dense = [o for o in ops[:3] if 'fresh' not in o.split(' ')]
+        op = _reproducing_line(ctx, corpus + dense + sorted(set(ops[3:]), key=len)) or f'(family concurrent under -race, seed {ctx.seed})'
+        ctx.fail('prop', f'race detector: {len(reports)} data race report(s) in family concurrent: {_sites(rep)}',
+                 family='concurrent', op=op, impl=rep['text'], demanded='no data race')
+    # (b) the corpus lines on the race build
+    for w in corpus:
+        wans, reps = _race_exec(ctx, [w] * 6)
+        tot['witness_runs'] += 6
+        tot['witness_reports'] += len(reps)
+        wm = F.run_driver([w])[0]
+        if any(a != wm for a in wans) or len(wans) != 6:
+            ctx.fail('prop', 'corpus line under -race: the answer of the implementation differs from the model', family='concurrent',
+                     op=w, impl=next((a for a in wans if a != wm), 'no answer'), model=wm, demanded=wm)
+        if reps:
+            ctx.fail('prop', f'race detector: {len(reps)} data race report(s) on a corpus line (6 repetitions): {_sites(reps[0])}',
+                     family='concurrent', op=w, impl=reps[0]['text'], demanded='no data race')
     ctx.cov.setdefault('extra', {})['race'] = tot
-    ctx.cov['extra_evaluations'] = ctx.cov.get('extra_evaluations', 0) + tot['ops']
+    ctx.cov['extra_evaluations'] = ctx.cov.get('extra_evaluations', 0) + tot['ops'] + tot['witness_runs']
     ctx.log(f"concurrent under -race: {tot}")
-    # (c) the listed finding: replay its witness on the race build
-    for k in F.load_known('C15'):
-        if k.get('status') != 'open' or k.get('id') != KF_ID:
-            continue
-        w = k['witness']
-        seen = 0
-        for attempt in range(4):
-            ans, reps = _race_exec(ctx, [w] * 6)
-            kn, ot = _classify(reps)
-            if ot:
-                ctx.fail('prop', 'witness of KF-C15-1 under -race: a report outside the listed site', op=w, impl=ot[0]['text'], demanded='no data race')
-            seen += len(kn)
-            if seen:
-                break
-        cl = F.run_driver([w], mode='--kf')[0]
-        if seen and KF_ID in cl.split(','):
-            ctx.known.append(f"{k['id']} {k['what']}")
-        else:
-            ctx.log(f'note: the race detector no longer reports the site of {KF_ID} on its witness')
 
 
 PROP = dict(
     level='proof',
     regen=['filedefs'],
     theorems=['Fit.C15.C15_pool_inv', 'Fit.C15.C15_op_result_indep_of_pool', 'Fit.C15.C15_actions_commute',
-              'Fit.C15.C15_non_interference_prefix', 'Fit.C15.C15_non_interference', 'Fit.C15.C15_no_conflict_partial',
-              'Fit.C15.C15_KF1_witness'],
+              'Fit.C15.C15_non_interference_prefix', 'Fit.C15.C15_non_interference', 'Fit.C15.C15_options_never_written',
+              'Fit.C15.C15_no_conflict', 'Fit.C15.C15_shared_options_result'],
     families=[dict(name='concurrent', prop=True, shrink=True)],
     extra=_extra,
     trusted_base=STD_TRUST + [
         "the list of shared cells in FitModel/Shared.lean (factory table behind sync.Once, mesgdef's sync.Pool, caller-provided Options) comes from reading the code and from -race runs; an unmodelled shared word is visible only to the race detector",
         "sync.Once / sync.Pool / channels synchronise as documented (Go memory model); sync.Pool.Get returns a previously Put value or a fresh New() one",
-        "data-race freedom of the compiled binary is SAMPLED: family `concurrent` runs under the race detector in both tiers (mixes without a shared nil-factory options object must be report-free; with it, only the KF-C15-1 site may be reported)",
+        "data-race freedom of the compiled binary is SAMPLED: family `concurrent` runs under the race detector in both tiers; every report is a violation (no excused site since the repair of KF-C15-1); that shared option values are only read is also observed directly (the shared options objects are compared with their values before the concurrent phase)",
     ],
     assumptions=["operations act on distinct objects (own decoder/encoder/listener/file/buffers); only package-level state and read-only option values are shared"],
     rule='operations = mixes of k in {2,4,16} goroutines x 2..24 operations on distinct objects; an evaluation = one mix (every operation of it compared with its solo run); race-detector runs counted in extra_evaluations',
@@ -129,6 +100,6 @@ PROP = dict(
 
 TEXT = dict(
     technique='Lean 4 proof of non-interference for interleavings of atomic actions over a model of the shared package state (simulation invariant, commutation), differential tie (concurrent vs solo results on the real code) and race-detector runs',
-    text='For every set of operations over the modelled alphabet (pool Get/Put, once-guarded factory table, options nil check, private steps), every interleaving and every resolution of sync.Pool.Get, each operation ends with the result of its solo run; the pool only holds zeroed arrays and results do not depend on that; actions of different operations commute. Sharing one *mesgdef.Options with nil Factory makes every ToMesg write it: proved conflict in the model and reported by the race detector (open finding KF-C15-1); with Factory set no operation writes a shared options object.',
+    text='For every set of operations over the modelled alphabet (pool Get/Put, once-guarded factory table, options nil check, private steps), every interleaving and every resolution of sync.Pool.Get, each operation ends with the result of its solo run; the pool only holds zeroed arrays and results do not depend on that; actions of different operations commute. No operation ever writes an options object of the caller, whether its Factory is set or nil, shared or not (ToMesg takes the default factory in a local since the repair of KF-C15-1), so there is no conflict on shared option values and conversions sharing one yield their solo results; the shared options objects of the implementation are observed unchanged and the race detector must stay silent.',
     note='Proof level for the model; partial for the binary: word-level races of the compiled code are sampled by the race detector (k = 2, 4, 16 goroutines, GOMAXPROCS 1..16, decoders, encoders, listeners, typed conversions, factory first use in a fresh process, opener pool), not proved.',
 )
